@@ -72,6 +72,26 @@ theorem inside_in_force (M : Managers) (hM : M.Good) (which : Fin 3) (arg : Nat)
       exec which arg (fun _ => body ⟨setG w.glob which arg, w.log⟩) (M.ir which) ⟨w, 0⟩ := by
   rcases goodShape_cases (hM which) with h | h <;> rw [h] <;> simp [shapeA, shapeB, exec, execStmt]
 
+/-- **Whatever the body does** — including switching the block's own setting with the public non-scoped
+    setter, any number of times — on exit (normal or by an exception) the block's own setting has its value
+    from before the block, and the other two settings are exactly as the body left them (the manager
+    touches nothing else). The body is an arbitrary function of the world. -/
+theorem own_setting_restored_any_body (M : Managers) (hM : M.Good) (which : Fin 3) (arg : Nat)
+    (body : World → World × Outcome) (w : World) :
+    (exec which arg body (M.ir which) ⟨w, 0⟩).1.world.glob which = w.glob which ∧
+    (∀ j, j ≠ which → (exec which arg body (M.ir which) ⟨w, 0⟩).1.world.glob j
+        = (body ⟨setG w.glob which arg, w.log⟩).1.glob j) ∧
+    (exec which arg body (M.ir which) ⟨w, 0⟩).2 = (body ⟨setG w.glob which arg, w.log⟩).2 := by
+  rcases goodShape_cases (hM which) with h | h <;> rw [h] <;>
+    simp only [shapeA, shapeB, exec, execStmt] <;>
+    generalize body _ = r <;> obtain ⟨w', o⟩ := r <;> cases o <;> simp [setG]
+  all_goals (intro j hj; simp [hj])
+
+/-- For the managers as they are in /repo now. -/
+theorem settings_restored_any_body (which : Fin 3) (arg : Nat) (body : World → World × Outcome) (w : World) :
+    (exec which arg body (Generated.CtxIR.managers.ir which) ⟨w, 0⟩).1.world.glob which = w.glob which :=
+  (own_setting_restored_any_body _ generated_good which arg body w).1
+
 /-- The shape on the pinned tree (no `try/finally`) does leak: the full statement is false of it. -/
 theorem pinned_counterexample :
     (runBlock ⟨fun _ => pinnedIR⟩ (.withB 0 7 [] true) ⟨fun _ => 1, []⟩).1.glob 0 = 7 := by decide
